@@ -8,17 +8,19 @@ import (
 	"time"
 
 	"github.com/safing/portbase/modules"
+	"github.com/safing/portbase/utils/vhook"
 
 	"verifharness/internal/vlib"
 )
 
 // ChildOut is what one module-system life looked like from the outside.
 type ChildOut struct {
-	Events   []vlib.Event `json:"events"`
-	Quiesced bool         `json:"quiesced"` // every callback that began has ended when the last snapshot was taken
-	Settled  bool         `json:"settled"`  // no module was left in a transient status the harness expected to end
-	Notifies int64        `json:"notifies"`
-	Problem  string       `json:"problem,omitempty"` // harness-side trouble (never a verdict)
+	Events     []vlib.Event `json:"events"`
+	Quiesced   bool         `json:"quiesced"` // every callback that began has ended when the last snapshot was taken
+	Settled    bool         `json:"settled"`  // no module was left in a transient status the harness expected to end
+	Notifies   int64        `json:"notifies"`
+	HookDelays int64        `json:"hook_delays"`
+	Problem    string       `json:"problem,omitempty"` // harness-side trouble (never a verdict)
 }
 
 func errStr(err error) any {
@@ -43,15 +45,50 @@ func childMain(dir string) {
 
 	modules.SetStdErrReporting(false)
 
+	// Modules whose state the event log cannot show because they were registered with
+	// a nil function: their status is read when a callback that has to wait for them
+	// begins (stop: dependents without stop/start function; start: dependencies without
+	// start function; prep: dependencies without prep function).
+	specOf := map[string]*ModSpec{}
+	for i := range sc.Mods {
+		specOf[sc.Mods[i].Name] = &sc.Mods[i]
+	}
+	watch := map[string][]string{} // "<module>/<phase>" -> modules to look at
+	for _, m := range sc.Mods {
+		for _, d := range m.Deps {
+			if m.Stop.Nil || m.Start.Nil {
+				watch[d+"/stop"] = append(watch[d+"/stop"], m.Name)
+			}
+			if specOf[d].Start.Nil {
+				watch[m.Name+"/start"] = append(watch[m.Name+"/start"], d)
+			}
+			if specOf[d].Prep.Nil {
+				watch[m.Name+"/prep"] = append(watch[m.Name+"/prep"], d)
+			}
+		}
+	}
+	mods := map[string]*modules.Module{}
+	lastPhase := map[string]*atomic.Value{} // phase of the callback that returned last, per module
+	var hookDelays atomic.Int64
+
 	mk := func(name, phase string, b Behav) func() error {
 		if b.Nil {
 			return nil
 		}
 		var cnt atomic.Int64
+		look := watch[name+"/"+phase]
 		return func() error {
 			k := int(cnt.Add(1))
 			open.Add(1)
-			lg.Rec("begin", name, phase, map[string]any{"n": k})
+			f := map[string]any{"n": k}
+			if len(look) > 0 {
+				seen := map[string]any{}
+				for _, o := range look {
+					seen[o] = int(mods[o].Status())
+				}
+				f["seen"] = seen
+			}
+			lg.Rec("begin", name, phase, f)
 			if b.DelayUs > 0 {
 				time.Sleep(time.Duration(b.DelayUs) * time.Microsecond)
 			}
@@ -66,6 +103,7 @@ func childMain(dir string) {
 				lastPrepOK[name].Store(res == "ok")
 			}
 			lg.Rec("end", name, phase, map[string]any{"n": k, "res": res})
+			lastPhase[name].Store(phase)
 			open.Add(-1)
 			switch res {
 			case "err":
@@ -86,9 +124,21 @@ func childMain(dir string) {
 		}
 		modules.EnableModuleManagement(fn)
 	}
-	mods := map[string]*modules.Module{}
+	if sc.HookDelayUs > 0 {
+		// Amplifier for the window "start result handed out, control goroutine not
+		// finished yet": hold the goroutine of a finished start routine at the
+		// beginning of its deferred function. An ordinary preemption point; with the
+		// correct order (flag reset, then result) it merely delays the result.
+		vhook.Set("modules.ctrlfn.done", func(_, subject string) {
+			if lp := lastPhase[subject]; lp != nil && lp.Load() == "start" {
+				hookDelays.Add(1)
+				time.Sleep(time.Duration(sc.HookDelayUs) * time.Microsecond)
+			}
+		})
+	}
 	var order []string
 	for _, ms := range sc.Mods {
+		lastPhase[ms.Name] = &atomic.Value{}
 		lastStartOK[ms.Name] = &atomic.Bool{}
 		lastPrepOK[ms.Name] = &atomic.Bool{}
 		m := modules.Register(ms.Name, mk(ms.Name, "prep", ms.Prep), mk(ms.Name, "start", ms.Start), mk(ms.Name, "stop", ms.Stop), ms.Deps...)
@@ -189,6 +239,7 @@ func childMain(dir string) {
 	out.Quiesced = stable >= 8 && open.Load() == 0
 	snap("quiescent")
 	out.Notifies = notifies.Load()
+	out.HookDelays = hookDelays.Load()
 	out.Events = lg.Events()
 	vlib.ChildFinish(dir, out)
 }
